@@ -31,7 +31,24 @@ SUB_TRUST = ["sync.RWMutex, sync/atomic and channels behave as the Go memory mod
              "transition system's outcomes; the theorems are about the fine-grained transition system",
              "yieldify rewriter + cooperative scheduler (harness/cmd/yieldify, harness/overlay/zz_vsched.go.txt)"]
 
+HUB_STAGE = {"kind": "cases", "name": "hub-histories", "driver": "HUBSEQ", "n": {"quick": 400, "thorough": 6000}}
+HUB_RULE = ("handler-level sequential histories on the real hub (both transports; retention size 0/2/3; subscription events on/off): 6-20 operations "
+            "drawn from publish (1-2 topics over {a,b,c}, private or not), subscribe (selectors over {a,b,c,*}, anonymous / claim [a|b] / claim [*], "
+            "Last-Event-ID none / earliest / a published id / unknown), client leaves, Hub.Stop, restart on the same history file; observed: each "
+            "stream's status, Last-Event-ID header, ids received, whether the hub ended it; every publish's status; the history file read back; "
+            "subscription events in it; the Prometheus gauge and counters after every operation. Each case is replayed through Model/Hub.v's wstep "
+            "and judged by the abstract sequential specification (Model/HubCases.v hub_spec_ok). non-trivial = at least 2 publishes and one matching pair")
+HUB_TRUST = ["critical sections under the transport lock and LocalSubscriber methods are single steps of Model/Hub.v (reduction argument in the file header; "
+             "the fine-grained subscriber system is Model/SubLts.v); concurrency is covered by the theorems (all schedules of the model) and by the "
+             "schedule-steered stages where present, the tie to the code of this stage is sequential",
+             "bbolt: atomic durable write transactions, snapshot reads, ordered cursor", "net/http, encoding/json, Prometheus client"]
+
 PROPS = {
+    "C01": {"stages": [HUB_STAGE], "rule": HUB_RULE, "trusted": HUB_TRUST + ["matching itself: C05/C11; token verification: C03"], "assumptions": []},
+    "C09": {"stages": [HUB_STAGE], "rule": HUB_RULE + " (kill -9 crash points are not exercised by this stage: restart here is a graceful stop)",
+            "trusted": HUB_TRUST + ["process death and power loss: bbolt's commit protocol is trusted, not exercised"], "assumptions": []},
+    "C15": {"stages": [HUB_STAGE], "rule": HUB_RULE, "trusted": HUB_TRUST, "assumptions": []},
+    "C20": {"stages": [HUB_STAGE], "rule": HUB_RULE, "trusted": HUB_TRUST, "assumptions": []},
     "C13": {
         "binaries": ["verifh", "verifs"],
         "stages": SUB_STAGES,
